@@ -205,8 +205,30 @@ def gen_isa(rng):
             prod.append(var("a"))
         rules.append({"block": rng.choice(blocks), "sub": False, "pat": pat, "prod": concat(prod)})
         descr.append(ops)
+    if rng.random() < 0.3:
+        # two rules for one mnemonic that read the same line: one spells its first operand (a register name) and glues the
+        # comma, the other takes an expression there and writes a blank after the comma.  The one with more LITERAL
+        # characters wins - blanks in a pattern are not characters of the line
+        mn = rng.choice(["add", "mov", "st", "cmp"])
+        reg = rng.choice(["a", "x", "r0"])
+        lit = {"p": "lit", "lc": mn, "c0": mn[0], "nch": len(mn)}
+        comma = {"p": "lit", "lc": ",", "c0": ",", "nch": 1}
+        op1, op2 = rng.randrange(0, 256), rng.randrange(0, 256)
+        r1 = {"block": "cpu", "sub": False,
+              "pat": [lit, {"p": "ws"}, {"p": "lit", "lc": reg, "c0": reg[0], "nch": len(reg)}, comma, {"p": "par", "name": "v", "ty": "none", "n": 0, "sub": ""}],
+              "prod": concat([numlit("0x%02x" % op1), {"k": "sshort", "e": var("v"), "n": numlit("8")}])}
+        r2 = {"block": rng.choice(blocks), "sub": False,
+              "pat": [lit, {"p": "ws"}, {"p": "par", "name": "a", "ty": "none", "n": 0, "sub": ""}, comma, {"p": "ws"},
+                      {"p": "par", "name": "v", "ty": "none", "n": 0, "sub": ""}],
+              "prod": concat([numlit("0x%02x" % op2), {"k": "sshort", "e": var("a"), "n": numlit("8")}, {"k": "sshort", "e": var("v"), "n": numlit("8")}])}
+        pair = [(r1, [("reg", reg), ("untyped", 8)]), (r2, [("untyped", 8), ("untyped", 8)])]
+        rng.shuffle(pair)
+        for r_, o_ in pair:
+            rules.append(r_)
+            descr.append(o_)
     allrules = rules + [r for sb in subblocks for r in sb["rules"]]
-    return {"rules": allrules, "top": list(zip(rules, descr)), "subblocks": subblocks}
+    top = list(zip(rules, descr))
+    return {"rules": allrules, "top": top, "subblocks": subblocks}
 
 
 # ---------------------------------------------------------------------------
@@ -953,6 +975,22 @@ def gen_cascade_program(rng, isa=None):
         pos_use = rng.randrange(0, len(items) + 1)
         items.insert(pos_use, use)
         items.insert(rng.randrange(0, len(items) + 1), {"k": "const", "lvl": 0, "name": "sz", "e": ce})
+    # truth-valued constants that follow a moving label through a chain written in the wrong order (each pass carries
+    # the new value one line up), read by data in front of them: a constant that changes is not settled, whatever
+    # kind of value it has
+    if rng.random() < 0.25:
+        back = [it["name"] for it in items if it["k"] == "label"] or labels
+        tgt = rng.choice(back)
+        thr = rng.choice([3, 8, 13, 0x10, 0x20, 0x7f, 0x100])
+        chain = [{"k": "const", "lvl": 0, "name": "cb0", "e": var("cb1")},
+                 {"k": "const", "lvl": 0, "name": "cb1", "e": var("cb2")},
+                 {"k": "const", "lvl": 0, "name": "cb2", "e": _cmp(rng.choice(["gt", "lt", "ge"]), var(tgt), numlit(str(thr)))}]
+        chain = chain[rng.choice([0, 0, 1, 2]):]
+        use = {"k": "data", "w": 8, "es": [{"k": "tern", "c": var(chain[0]["name"]), "t": numlit("0xf1"), "f": numlit("0xf0")}]}
+        pos_use = rng.randrange(0, len(items) + 1)
+        items.insert(pos_use, use)
+        at = rng.randrange(pos_use + 1, len(items) + 1)
+        items[at:at] = chain
     # user functions whose bodies read the address of the calling item or a label, called in operands
     fns = []
     if rng.random() < 0.3:
@@ -1107,6 +1145,46 @@ def gen_const_chain(rng, n, order):
         rng.shuffle(decl)
     use = _item(k="data", w=16, es=[{"k": "var", "lvl": 0, "path": ["c0"]}])
     items = [use] + decl if rng.random() < 0.5 else decl + [use]
+    return {"rules": [], "items": items}
+
+
+def gen_twin_scopes(rng):
+    """two (or three) global labels with the SAME names nested under them to depth two, references with one and two
+    dots from inside each, now and then a child that exists under one parent only: every reference belongs to the
+    parent it is written under, however alike the families look"""
+    g = rng.sample(["g1", "g2", "g3", "q"], rng.choice([2, 2, 3]))
+    mid, leaf = rng.choice(["a", "b"]), rng.choice(["x", "y"])
+    items = []
+    m = 1
+    def mark():
+        nonlocal m
+        m += 1
+        return _item(k="data", w=8, es=[{"k": "num", "text": list(str(m))}])
+    def ref(lvl, path):
+        return _item(k="data", w=16, es=[{"k": "var", "lvl": lvl, "path": path}])
+    for gi, gname in enumerate(g):
+        items.append(_item(k="label", lvl=0, name=gname))
+        items.append(mark())
+        items.append(_item(k="label", lvl=1, name=mid))
+        if rng.random() < 0.5:
+            items.append(mark())
+        missing = gi > 0 and rng.random() < 0.2
+        if not missing:
+            if rng.random() < 0.3:
+                items.append(_item(k="const", lvl=2, name=leaf, e={"k": "num", "text": list(str(40 + gi))}))
+            else:
+                items.append(_item(k="label", lvl=2, name=leaf))
+            items.append(mark())
+        for _ in range(rng.randrange(1, 4)):
+            c = rng.random()
+            if c < 0.5:
+                items.append(ref(2, [leaf]))
+            elif c < 0.75:
+                items.append(ref(1, [mid, leaf]))
+            elif c < 0.9:
+                items.append(ref(0, [rng.choice(g), mid, leaf]))
+            else:
+                items.append(ref(1, [mid]))
     return {"rules": [], "items": items}
 
 
@@ -1295,6 +1373,31 @@ def gen_cond_program(rng):
             if rng.random() < 0.7:
                 items.insert(rng.randrange(0, len(items) + 1) if rng.random() < 0.5 else len(items),
                              _item(k="const", lvl=0, name="N", e={"k": "num", "text": ["5"]}))
+    # rule blocks (unnamed, as most programs write them) at the top level and inside arms: a block in an arm that is
+    # not selected does not exist; one in the selected arm is a block like any other, wherever it stands
+    if rng.random() < 0.3:
+        def block(mn, op, bname):
+            rule = {"block": bname, "sub": False, "pat": [_lit(mn), {"p": "ws"}, _par("v")],
+                    "prod": concat([numlit("0x%02x" % op), {"k": "sshort", "e": var("v"), "n": numlit("8")}])}
+            b = _item(k="ruledef")
+            b["rules"] = [rule]
+            return b
+        top = block("ta", 0xa0, "anon1")
+        arm = block("tb", 0xb0, "anon2")
+        guard = _item(k="if", e=cond())
+        guard["then"], guard["else"], guard["haselse"] = [arm, mark()], [mark()], True
+        if rng.random() < 0.3:
+            guard["then"], guard["else"] = guard["else"], guard["then"]
+        pair = [guard, top]
+        rng.shuffle(pair)
+        items[0:0] = pair if rng.random() < 0.6 else []
+        if pair[0] not in items:
+            items += pair
+        uses = [_item(k="instr", toks=[tok("id", "ta", True), num_tok(rng, rng.randrange(0, 200), True, "dec")])]
+        if rng.random() < 0.75:
+            uses.append(_item(k="instr", toks=[tok("id", "tb", True), num_tok(rng, rng.randrange(0, 200), True, "dec")]))
+        rng.shuffle(uses)
+        items += uses
     # defines
     defines, argv = [], []
     for _ in range(rng.choice([0, 0, 1, 1, 2, 3])):
@@ -1349,6 +1452,10 @@ def render_items(items, indent=""):
             out.append("%s%s%s = %s\n" % (indent, "." * it["lvl"], it["name"], genexpr.render(it["e"])))
         elif k == "data":
             out.append("%s#d%s %s\n" % (indent, "" if it["w"] < 0 else str(it["w"]), ", ".join(genexpr.render(e) for e in it["es"])))
+        elif k == "instr":
+            out.append("%s%s\n" % (indent, render_tokens(it["toks"])))
+        elif k == "ruledef":
+            out.append("%s#ruledef\n%s{\n%s%s}\n" % (indent, indent, "".join(indent + render_rule(r) for r in it["rules"]), indent))
     return "".join(out)
 
 
@@ -1519,7 +1626,21 @@ def gen_macro_program(rng):
                                                        "args": [{"k": "num", "text": list(str(rng.randrange(0, 9)))} for _ in f["params"]]}]))
         else:
             items.append(_item(k="data", w=8, es=[{"k": "num", "text": list(str(rng.randrange(0, 200)))}]))
+    if nested and rng.random() < 0.5:
+        # a parameter spelled like a label that has children: `lab0.z0' in the production is the SYMBOL z0 under lab0 -
+        # a dotted path is never a local variable
+        child = nested[0][1:]
+        rules.append({"block": "cpu", "sub": False, "pat": [_lit("rdn"), {"p": "ws"}, _par("lab0")],
+                      "prod": concat([numlit("0xf2"), {"k": "sshort", "e": {"k": "var", "lvl": 0, "path": ["lab0", child]}, "n": numlit("8")},
+                                      {"k": "sshort", "e": var("lab0"), "n": numlit("8")}])})
+        items.insert(rng.randrange(1, len(items) + 1), _item(k="instr", toks=[tok("id", "rdn", True), num_tok(rng, rng.randrange(0, 200), True, "dec")]))
     items.append(_item(k="label", lvl=0, name="lab1"))
+    # blanks in front of separators: `mac0 5 , 7` - the text that a macro pastes for {a} is `5', not `5 '
+    for it in items:
+        if it["k"] == "instr" and rng.random() < 0.3:
+            for t in it["toks"][1:]:
+                if t["k"] == "op" and t["s"] in (",", ")", "]", "+", "-") and rng.random() < 0.6:
+                    t["b"] = True
     return {"rules": rules, "items": items, "fns": fns}
 
 
